@@ -464,7 +464,7 @@ impl GeographicDiversityEnforcer {
         *self.region_counts.entry(region).or_insert(0) += 1;
     }
 
-    fn _remove(&mut self, region: GeographicRegion) {
+    fn remove(&mut self, region: GeographicRegion) {
         if let Some(count) = self.region_counts.get_mut(&region) {
             *count = count.saturating_sub(1);
         }
@@ -1336,6 +1336,8 @@ impl DhtCoreEngine {
         }
 
         // 2. Security Check: IP Diversity (both IPv4 and IPv6)
+        // The slots taken here are given back if a later step refuses the node.
+        let mut ip_slot: Option<crate::security::UnifiedIPAnalysis> = None;
         {
             // Parse IP address from node.address string
             // address comes as "ip:port" or just "ip"
@@ -1363,6 +1365,7 @@ impl DhtCoreEngine {
                             );
                             anyhow::anyhow!("IP diversity tracking failed: {e:?}")
                         })?;
+                        ip_slot = Some(analysis);
                     }
                     Err(e) => {
                         tracing::debug!("Could not analyze IP {:?}: {:?}", ip, e);
@@ -1373,6 +1376,7 @@ impl DhtCoreEngine {
         }
 
         // 3. Security Check: Geographic Diversity
+        let mut region_slot: Option<GeographicRegion> = None;
         {
             // Parse IP address from node.address string (reuse parsed IP from above)
             let ip_addr: Option<IpAddr> = if let Ok(socket) = node.address.parse::<SocketAddr>() {
@@ -1383,24 +1387,57 @@ impl DhtCoreEngine {
 
             if let Some(ip) = ip_addr {
                 let region = GeographicRegion::from_ip(ip);
-                let mut enforcer = self.geographic_diversity_enforcer.write().await;
-                if !enforcer.can_accept(region) {
+                let accepted = {
+                    let mut enforcer = self.geographic_diversity_enforcer.write().await;
+                    if enforcer.can_accept(region) {
+                        enforcer.add(region);
+                        true
+                    } else {
+                        false
+                    }
+                };
+                if !accepted {
                     tracing::warn!(
                         "Node rejected due to geographic diversity limits: {:?} in region {:?}",
                         ip,
                         region
                     );
+                    // A refused admission consumes nothing: return the IP diversity slots
+                    if let Some(analysis) = &ip_slot {
+                        self.ip_diversity_enforcer
+                            .write()
+                            .await
+                            .remove_unified(analysis);
+                    }
                     return Err(anyhow::anyhow!(
                         "Geographic diversity limits exceeded for region {region:?} (IP: {ip})"
                     ));
                 }
-                enforcer.add(region);
+                region_slot = Some(region);
             }
         }
 
         // 4. Add to routing table
-        let mut routing = self.routing_table.write().await;
-        routing.add_node(node)?;
+        let added = {
+            let mut routing = self.routing_table.write().await;
+            routing.add_node(node)
+        };
+        if let Err(e) = added {
+            // A refused admission consumes nothing: return the slots taken in steps 2 and 3
+            if let Some(analysis) = &ip_slot {
+                self.ip_diversity_enforcer
+                    .write()
+                    .await
+                    .remove_unified(analysis);
+            }
+            if let Some(region) = region_slot {
+                self.geographic_diversity_enforcer
+                    .write()
+                    .await
+                    .remove(region);
+            }
+            return Err(e);
+        }
 
         // 5. Update Metrics
         // (Placeholder: Add metric for new node joining if available)
